@@ -5,7 +5,7 @@ From Coq Require Export ZArith List Bool.
 Export ListNotations.
 Open Scope Z_scope.
 
-Inductive exn := EUser (name : String.string) | EZeroDivision | EKey | EType.
+Inductive exn := EUser (name : String.string) | EZeroDivision | EKey | EType | EIndex.
 
 (* outcome of a block over state S inside a function returning R *)
 Inductive outcome (S R : Type) :=
@@ -32,7 +32,16 @@ Definition finish {S R} (o : outcome S R) : fres R :=
 Definition bindr {S R R'} (c : fres R') (k : R' -> outcome S R) : outcome S R :=
   match c with FRet r => k r | FNone => Raised EType | FRaised e => Raised e | FNonInt => NonInt end.
 
+(* return f(): the callee's result is passed on unchanged, None included *)
+Definition retcall {S R} (c : fres R) : outcome S R :=
+  match c with FRet r => Ret r | FNone => RetNone | FRaised e => Raised e | FNonInt => NonInt end.
+Fixpoint bits_eqb (a b : list bool) : bool :=
+  match a, b with [], [] => true | x :: a', y :: b' => Bool.eqb x y && bits_eqb a' b' | _, _ => false end.
+
 Definition enumerate {A} (l : list A) : list (Z * A) := combine (map Z.of_nat (seq 0 (length l))) l.
+
+(* range(n): 0, 1, ..., n-1 (empty for n <= 0) *)
+Definition pyrange (n : Z) : list Z := map Z.of_nat (seq 0 (Z.to_nat n)).
 
 (* str values built by f-strings: literal pieces and integers *)
 Inductive tok := TS (s : String.string) | TZ (z : Z).
